@@ -159,6 +159,44 @@ func opInvCompact(args []string) string {
 	return showFull(s)
 }
 
+// ---------- several visitors on the same in-memory tree ----------
+
+// ops: comma separated; "c" = nvram-compact, "a" = Assemble (what save does),
+// "i<hex name>" = invalidate_nvar with that exact name; "-" = none
+func runSeq(s *uefi.NVarStore, ops string) error {
+	if ops == "-" || ops == "" {
+		return nil
+	}
+	for _, t := range strings.Split(ops, ",") {
+		var err error
+		switch {
+		case t == "c":
+			err = (&visitors.NVRamCompact{}).Run(s)
+		case t == "a":
+			err = (&visitors.Assemble{}).Run(s)
+		case strings.HasPrefix(t, "i"):
+			err = (&visitors.NVarInvalidate{Predicate: namePred(string(UnH(t[1:])))}).Run(s)
+		default:
+			panic("bad op " + t)
+		}
+		if err != nil {
+			return err
+		}
+	}
+	return nil
+}
+
+func opSeq(args []string) string {
+	s, err := parse(UnN(args[0]), UnH(args[2]))
+	if err != nil {
+		return errObs(err)
+	}
+	if err := runSeq(s, args[1]); err != nil {
+		return errObs(err)
+	}
+	return showFull(s)
+}
+
 func opUcs2Utf8(args []string) string { return "ok " + H([]byte(unicode.UCS2ToUTF8(UnH(args[0])))) }
 func opUtf8Ucs2(args []string) string { return "ok " + H(unicode.UTF8ToUCS2(string(UnH(args[0])))) }
 
@@ -303,7 +341,77 @@ func pInvCompact(args []string) string {
 	return checkCompacted(pol, s, len(b), want)
 }
 
+// A command line of invalidate/compact/assemble steps on one parsed tree, then
+// save.  What the saved bytes must hold: invalidation marks variables, the next
+// compaction sweeps them; steps after the last compaction do not reach the bytes.
+func pSeq(args []string) string {
+	pol, ops, b := UnN(args[0]), args[1], UnH(args[2])
+	cur := argsLive(args[3:])
+	orig := append([]byte{}, b...)
+	var saved []liveVar
+	compacted := false
+	if ops != "-" {
+		for _, t := range strings.Split(ops, ",") {
+			switch {
+			case t == "c":
+				saved = append([]liveVar{}, cur...)
+				compacted = true
+			case strings.HasPrefix(t, "i"):
+				name := string(UnH(t[1:]))
+				var keep []liveVar
+				for _, v := range cur {
+					if string(v.name) != name {
+						keep = append(keep, v)
+					}
+				}
+				cur = keep
+			}
+		}
+	}
+	s, err := parse(pol, b)
+	if err != nil {
+		return "FAIL parse-error " + err.Error()
+	}
+	if err := runSeq(s, ops); err != nil {
+		return "FAIL step-error " + err.Error()
+	}
+	if err := (&visitors.Assemble{}).Run(s); err != nil { // save
+		return "FAIL save-error " + err.Error()
+	}
+	if !compacted {
+		if !bytes.Equal(s.Buf(), orig) {
+			return "FAIL bytes-differ-without-compaction"
+		}
+		return "ok"
+	}
+	return checkCompacted(pol, s, len(orig), saved)
+}
+
 // ---------- generator ----------
+
+func genOps(r *Rng, live []liveVar, maxLen int) string {
+	n := r.Range(1, maxLen)
+	var ts []string
+	for i := 0; i < n; i++ {
+		switch r.Intn(5) {
+		case 0, 1:
+			ts = append(ts, "c")
+		case 2, 3:
+			nm := []byte(namePool[r.Intn(len(namePool))])
+			if len(live) > 0 && r.Chance(3, 4) {
+				nm = live[r.Intn(len(live))].name
+			}
+			t := "i"
+			if len(nm) > 0 {
+				t += H(nm)
+			}
+			ts = append(ts, t)
+		default:
+			ts = append(ts, "a")
+		}
+	}
+	return strings.Join(ts, ",")
+}
 
 type gEntry struct {
 	attrs  byte
@@ -591,6 +699,13 @@ func genStore(r *Rng) *gStore {
 	return s
 }
 
+func hexOrEmpty(b []byte) string {
+	if len(b) == 0 {
+		return ""
+	}
+	return H(b)
+}
+
 func le16(v int) []byte { return []byte{byte(v), byte(v >> 8)} }
 
 // hostile variants of a store image
@@ -778,6 +893,12 @@ func gen(r *Rng, tier string, emit Emit) {
 		if asis {
 			emit("C", "parse0", pol, H(b))
 		}
+		// command lines on one tree: compact twice, compact / invalidate / compact, random ones
+		seqs := []string{"c,c", "c,i" + hexOrEmpty(nm) + ",c", genOps(rr, live, 4), genOps(rr, live, 4)}
+		for _, ops := range seqs {
+			emit("P", "p_seq", append([]string{pol, ops, H(b)}, liveArgs(live)...)...)
+			emit("C", "seq", pol, ops, H(b))
+		}
 		// hostile variants
 		for k := 0; k < 3; k++ {
 			mp, mb := mutate(rr, s)
@@ -789,6 +910,7 @@ func gen(r *Rng, tier string, emit Emit) {
 			emit("C", "assemble", mpol, H(mb))
 			emit("C", "compact", mpol, H(mb))
 			emit("C", "invcompact", mpol, H(nm), H(mb))
+			emit("C", "seq", mpol, genOps(rr, live, 4), H(mb))
 			if asis {
 				emit("C", "parse0", mpol, H(mb))
 			}
@@ -814,6 +936,7 @@ func gen(r *Rng, tier string, emit Emit) {
 			emit("C", "assemble", npol, H(nb))
 			emit("C", "compact", npol, H(nb))
 			emit("C", "invcompact", npol, H(nm), H(nb))
+			emit("C", "seq", npol, genOps(rr, ns.live(), 4), H(nb))
 			if !hostile {
 				emit("P", "p_roundtrip", npol, H(nb))
 			}
@@ -830,6 +953,8 @@ func main() {
 	Register("assemble", opAssemble)
 	Register("compact", opCompact)
 	Register("invcompact", opInvCompact)
+	Register("seq", opSeq)
+	Register("p_seq", pSeq)
 	Register("ucs2utf8", opUcs2Utf8)
 	Register("utf8ucs2", opUtf8Ucs2)
 	Register("p_roundtrip", pRoundTrip)
